@@ -5,6 +5,7 @@ package main
 import (
 	"bytes"
 	"fmt"
+	"os"
 	"strings"
 
 	"github.com/jawher/mow.cli/internal/zverif/vsched"
@@ -147,15 +148,16 @@ func (sc *scenario) explore(c *Ctx, prefix []int, bound int, taggedOnly bool, de
 }
 
 func runSched(c *Ctx) {
+	os.Setenv("VQ_S", "fixed") // read by some templates at declaration time; constant during the exploration
 	// replay determinism: the same schedule twice gives identical observations
 	type scn struct {
 		ts     []int
 		dense  int
 		tagged int
 	}
-	scns := []scn{{[]int{0, 1}, 1, 3}, {[]int{0, 0}, 1, 3}, {[]int{4, 5}, 1, 3}, {[]int{6, 7}, 1, 3}, {[]int{8, 1}, 1, 3}, {[]int{9, 10}, 1, 3}, {[]int{4, 4}, 1, 3}}
+	scns := []scn{{[]int{0, 1}, 1, 3}, {[]int{0, 0}, 1, 3}, {[]int{4, 5}, 1, 3}, {[]int{6, 7}, 1, 3}, {[]int{8, 1}, 1, 3}, {[]int{9, 10}, 1, 3}, {[]int{4, 4}, 1, 3}, {[]int{11, 11}, 1, 3}}
 	if c.Thorough() {
-		scns = []scn{{[]int{0, 1}, 2, 4}, {[]int{0, 0}, 2, 4}, {[]int{4, 5}, 2, 4}, {[]int{6, 7}, 2, 4}, {[]int{8, 1}, 2, 4}, {[]int{9, 10}, 2, 4}, {[]int{4, 4}, 2, 4}, {[]int{0, 1, 7}, 1, 3}, {[]int{4, 6, 5}, 1, 3}, {[]int{9, 0, 10}, 1, 3}}
+		scns = []scn{{[]int{0, 1}, 2, 4}, {[]int{0, 0}, 2, 4}, {[]int{4, 5}, 2, 4}, {[]int{6, 7}, 2, 4}, {[]int{8, 1}, 2, 4}, {[]int{9, 10}, 2, 4}, {[]int{4, 4}, 2, 4}, {[]int{11, 11}, 2, 4}, {[]int{0, 1, 7}, 1, 3}, {[]int{4, 6, 5}, 1, 3}, {[]int{9, 0, 10}, 1, 3}}
 	}
 	idx := 0
 	for _, s := range scns {
